@@ -1,6 +1,6 @@
 (* Interp.v — API programs: operations, their meaning on worlds, wire format. *)
 From Coq Require Import String Ascii List Bool Arith ZArith.
-From Prov Require Import Str Sexp Tables Nsm Scope Values Record World Jtree Json.
+From Prov Require Import Str Sexp Tables Nsm Scope Values Record World Jtree Json Provn.
 Import ListNotations.
 Open Scope string_scope.
 
@@ -33,6 +33,7 @@ Inductive op : Type :=
 | OEqRec (a b : rref)
 | OExportJson (d : nat)
 | OLoadJson (t : jv)
+| OExportProvn (d : nat)
 | OObserveAll.
 
 (* result of a step *)
@@ -506,6 +507,11 @@ Definition step (w : world) (o : op) : world * res :=
       | Raise e => (w, RRaise e)
       | OutOfDomain => (w, ROOD)
       end
+  | OExportProvn d =>
+      match get_doc w d with
+      | Some dd => (w, RDump (L [A "text"; A (doc_provn dd)]))
+      | None => (w, RBad)
+      end
   | OObserveAll => (w, RDump (sx_world w))
   end.
 
@@ -630,6 +636,7 @@ Definition px_op (x : sexp) : option op :=
       | Some a', Some b' => Some (OEqRec a' b') | _, _ => None end
   | L [A "ExportJson"; d] => option_map OExportJson (px_nat d)
   | L [A "LoadJson"; t] => option_map OLoadJson (px_jv 64 t)
+  | L [A "ExportProvn"; d] => option_map OExportProvn (px_nat d)
   | L [A "ObserveAll"] => Some OObserveAll
   | _ => None
   end.
